@@ -257,6 +257,7 @@ type genOpts struct {
 	waitFor     bool
 	evalFail    bool // expressions that can fail at run time (absent optional input, failing conversion, division by zero)
 	closureMs   int  // > 0: every step gets this closure_wait_timeout (keeps cancelled runs short)
+	closureZero bool // with closureMs: some steps get the valid minimum 0 instead (a step that ignores its cancel signal is force-closed at once)
 	litGates    bool // some steps get a LITERAL `enabled` (a spelling of the bool schema: the provider receives a string)
 	// multiRef: single expressions with SEVERAL step references, one of them already referenced by another expression of the
 	// same stage (input field, wait_for), optional members with several sources, and a !wait-optional next to a !soft-optional
@@ -392,6 +393,9 @@ func genWorkflow(r *rng, o genOpts) *AWf {
 		}
 		if o.closureMs > 0 {
 			s.Fields["closure_wait_timeout"] = lit(fmt.Sprintf("%d", o.closureMs))
+			if o.closureZero && r.chance(1, 3) {
+				s.Fields["closure_wait_timeout"] = lit("0")
+			}
 		}
 		if o.deployExpr && r.chance(1, 2) {
 			s.Fields["deploy"] = amap("deployer_name", lit("scripted"), "note", expr("$.input.name"))
